@@ -17,22 +17,22 @@ PLANS = {
                       ('threads_toggle', 1500), ('long', 250),
                       ('long_faulty', 150), ('threads_mirror', 1200),
                       ('capacity', 16)],
-            'thorough': [('seq', 60000), ('threads', 70000),
-                         ('threads_toggle', 50000), ('long', 6000),
-                         ('long_faulty', 4000), ('threads_mirror', 40000),
-                         ('capacity', 500)]},
+            'thorough': [('seq', 24000), ('threads', 28000),
+                         ('threads_toggle', 20000), ('long', 2400),
+                         ('long_faulty', 1600), ('threads_mirror', 16000),
+                         ('capacity', 200)]},
     'C12': {'quick': [('seq', 2500), ('threads', 2000),
                       ('threads_mirror', 1500), ('capacity', 12)],
-            'thorough': [('seq', 60000), ('threads', 60000),
-                         ('threads_mirror', 40000), ('capacity', 400)]},
+            'thorough': [('seq', 24000), ('threads', 24000),
+                         ('threads_mirror', 16000), ('capacity', 160)]},
     'C15': {'quick': [('seq', 3000), ('threads', 2000), ('boot', 48),
                       ('threads_mirror', 800)],
-            'thorough': [('seq', 80000), ('threads', 60000), ('boot', 600),
-                         ('threads_mirror', 20000)]},
+            'thorough': [('seq', 32000), ('threads', 24000), ('boot', 240),
+                         ('threads_mirror', 8000)]},
     'C11': {'quick': [('seq', 3000), ('threads_toggle', 1500),
                       ('sweep', 282), ('threads_mirror', 800)],
-            'thorough': [('seq', 80000), ('threads_toggle', 50000),
-                         ('sweep', 282), ('threads_mirror', 20000)]},
+            'thorough': [('seq', 32000), ('threads_toggle', 20000),
+                         ('sweep', 282), ('threads_mirror', 8000)]},
 }
 CAT_SIZE = {'quick': 1100, 'thorough': 3500}
 
